@@ -20,6 +20,42 @@ Ltac splitdecTB := repeat match goal with
    `lit 10 0`, whose Z product unR leaves as `Z.pos (1 + 4)~0`) *)
 Ltac openTB := ungenTB; unR; cbn [Pos.add Pos.succ Pos.add_carry] in *; splitR.
 
+(* ---- closeR: a = b over R up to commutation / regrouping / let-naming, ALSO inside the arguments of
+   the opaque functions (exp, cos, sqrt, Rabs, ln, Rpow, Rinv), where `ring` alone cannot look.
+   Two applications of the same function anywhere in the goal whose arguments are (recursively) provably
+   equal are made syntactically equal; then ring / field / lra finish. `n` bounds the nesting depth. *)
+Ltac argsolve := first [ reflexivity | ring | solve [field; lra] | lra ].
+Ltac closeRn n :=
+  lazymatch n with
+  | O => argsolve
+  | S ?m =>
+    unfold Rdiv, Rsqr;
+    repeat first
+      [ unify1 exp m | unify1 cos m | unify1 sqrt m | unify1 Rabs m | unify1 ln m | unify1 Rinv m | unifyRpow m ];
+    argsolve
+  end
+with unify1 f m :=
+  match goal with
+  | |- context [f ?a] =>
+    match goal with
+    | |- context [f ?b] =>
+      tryif constr_eq a b then fail
+      else (replace (f a) with (f b) by (apply (f_equal f); closeRn m))
+    end
+  end
+with unifyRpow m :=
+  match goal with
+  | |- context [Rpow ?a1 ?a2] =>
+    match goal with
+    | |- context [Rpow ?b1 ?b2] =>
+      tryif (constr_eq a1 b1; constr_eq a2 b2) then fail
+      else (replace (Rpow a1 a2) with (Rpow b1 b2) by (apply (f_equal2 Rpow); closeRn m))
+    end
+  end.
+Ltac closeR := closeRn 3%nat.
+(* one branch of a case split: contradictory comparisons, or the algebra *)
+Ltac branchR := first [ exfalso; lra | closeR ].
+
 (* ================================================================ toolbox *)
 Lemma scaleB_range (h v : R) : 0 < h -> 0 <= v <= 1 -> 0 <= h * v <= h.
 Proof. intros Hh [H0 H1]; split; nra. Qed.
@@ -97,7 +133,7 @@ Qed.
 
 (* ================================================================ Gaussian *)
 Lemma Gaussian_eq (m sd h x : R) : Gaussian_membership m sd h x = h * Gaussian_shape m sd x.
-Proof. openTB. unspecTB. unfold Rsqr. ring. Qed.
+Proof. openTB; unspecTB; branchR. Qed.
 
 Lemma Gaussian_arg_le0 (m sd x : R) : sd <> 0 -> - (x - m)² / (2 * sd²) <= 0.
 Proof.
@@ -162,9 +198,7 @@ Qed.
 (* ================================================================ GaussianProduct *)
 Lemma GaussianProduct_eq (ma sa mb sb h x : R) :
   GaussianProduct_membership ma sa mb sb h x = h * GaussianProduct_shape ma sa mb sb x.
-Proof.
-  openTB; unspecTB; unfold Rsqr; splitdecTB; first [ring | exfalso; lra].
-Qed.
+Proof. openTB; unspecTB; splitdecTB; branchR. Qed.
 
 Lemma GaussianProduct_a_range (ma sa x : R) : sa <> 0 -> 0 <= GaussianProduct_a ma sa x <= 1.
 Proof.
@@ -234,7 +268,7 @@ Proof. intros H1 H2. rewrite GaussianProduct_eq, GaussianProduct_shape_plateau b
 
 (* ================================================================ Sigmoid *)
 Lemma Sigmoid_eq (i s h x : R) : Sigmoid_membership i s h x = h * Sigmoid_shape i s x.
-Proof. openTB. unspecTB. unfold Rdiv. ring. Qed.
+Proof. openTB; unspecTB; branchR. Qed.
 
 Lemma Sigmoid_shape_bounds (i s x : R) : 0 < Sigmoid_shape i s x < 1.
 Proof.
@@ -334,7 +368,7 @@ Qed.
 (* ================================================================ SigmoidProduct *)
 Lemma SigmoidProduct_eq (l r f rt h x : R) :
   SigmoidProduct_membership l r f rt h x = h * SigmoidProduct_shape l r f rt x.
-Proof. openTB. unspecTB. unfold Rdiv. ring. Qed.
+Proof. openTB; unspecTB; branchR. Qed.
 
 Lemma SigmoidProduct_shape_bounds (l r f rt x : R) : 0 < SigmoidProduct_shape l r f rt x < 1.
 Proof.
@@ -361,9 +395,7 @@ Qed.
 (* ================================================================ SigmoidDifference *)
 Lemma SigmoidDifference_eq (l r f rt h x : R) :
   SigmoidDifference_membership l r f rt h x = h * SigmoidDifference_shape l r f rt x.
-Proof.
-  openTB. unspecTB. unfold Rdiv. rewrite !Rmult_1_l, Rmult_1_r. reflexivity.
-Qed.
+Proof. openTB; unspecTB; branchR. Qed.
 
 Lemma SigmoidDifference_shape_range (l r f rt x : R) : 0 <= SigmoidDifference_shape l r f rt x <= 1.
 Proof.
@@ -427,7 +459,7 @@ Qed.
 
 (* ================================================================ Spike *)
 Lemma Spike_eq (c w h x : R) : Spike_membership c w h x = h * Spike_shape c w x.
-Proof. openTB. unspecTB. ring. Qed.
+Proof. openTB; unspecTB; branchR. Qed.
 
 Lemma Spike_shape_range (c w x : R) : 0 <= Spike_shape c w x <= 1.
 Proof. unfold Spike_shape. apply exp_unit. pose proof (Rabs_pos (10 / w * (x - c))). lra. Qed.
@@ -475,9 +507,7 @@ Qed.
 
 (* ================================================================ Cosine *)
 Lemma Cosine_eq (c w h x : R) : Cosine_membership c w h x = h * Cosine_shape c w x.
-Proof.
-  openTB; unspecTB; splitdecTB; first [ring | exfalso; lra].
-Qed.
+Proof. openTB; unspecTB; splitdecTB; branchR. Qed.
 
 Lemma Cosine_shape_range (c w x : R) : 0 <= Cosine_shape c w x <= 1.
 Proof.
@@ -534,7 +564,7 @@ Proof. intros H. rewrite Cosine_eq, Cosine_shape_outside by exact H. ring. Qed.
 Lemma Rabs_quot (a b : R) : Rabs (a / b) = Rabs a / Rabs b.
 Proof. unfold Rdiv. rewrite Rabs_mult, Rabs_inv. reflexivity. Qed.
 Lemma Bell_eq (c w s h x : R) : Bell_membership c w s h x = h * Bell_shape c w s x.
-Proof. openTB. unspecTB. rewrite Rabs_quot. rewrite ?(Rmult_comm s 2). ring. Qed.   (* `2*s` or `s*2` in the exponent *)
+Proof. openTB; unspecTB; rewrite ?Rabs_quot; branchR. Qed.
 
 Lemma Bell_shape_bounds (c w s x : R) : 0 < Bell_shape c w s x <= 1.
 Proof.
@@ -604,9 +634,10 @@ Lemma SemiEllipse_radicand (lo hi x : R) :
 Proof. unfold Rsqr. field. Qed.
 Lemma SemiEllipse_eq (s e h x : R) : SemiEllipse_membership s e h x = h * SemiEllipse_shape s e x.
 Proof.
-  ungenTB; unR; unspecTB. rewrite !pymin_R, !pymax_R, SemiEllipse_radicand.
+  ungenTB; unR; unspecTB. rewrite ?pymin_R, ?pymax_R.
   set (lo := Rmin s e). set (hi := Rmax s e). clearbody lo hi.
-  splitR; splitdecTB; first [ring | exfalso; lra].
+  (* the radicand (code: (x - lo)(hi - x); docstring: r² - (x - c)²) is reconciled by closeR *)
+  splitR; splitdecTB; branchR.
 Qed.
 
 Lemma SemiEllipse_shape_range (s e x : R) : s <> e -> 0 <= SemiEllipse_shape s e x <= 1.
@@ -682,10 +713,10 @@ Proof. rewrite !SemiEllipse_eq, SemiEllipse_shape_swap. reflexivity. Qed.
 (* ================================================================ Arc *)
 Lemma Arc_eq (s e h x : R) : s <> e -> Arc_membership s e h x = h * Arc_shape s e x.
 Proof.
-  intros Hse. ungenTB. unR. unspecTB. unfold Rsqr.
+  intros Hse. ungenTB. unR. unspecTB.
   (* direction first: it prunes the case tree *)
   destruct (Rltb_spec e s); destruct (Rltb_spec s e); destruct (Rlt_dec s e); try (exfalso; lra);
-  cbn [andb orb]; splitR; splitdecTB; first [ring | exfalso; lra].
+  cbn [andb orb]; splitR; splitdecTB; branchR.
 Qed.
 
 Lemma Arc_curve_range (s e x : R) : s <> e -> 0 <= Arc_curve s e x <= 1.
